@@ -147,7 +147,7 @@ structure Verdict where
   cp : String
   n : Nat
   la : Nat
-  rec : AMap
+  recKv : AMap
   fin : AMap
 deriving Repr, Inhabited
 
@@ -160,7 +160,7 @@ def crashAt (eng : Eng) (ops : List Op) (j : Nat) : Option Verdict :=
   | some i =>
     let cmds := (exec s0 ops).cmds
     let (kv, la) := recover eng i
-    some { cp := i.name, n := i.n, la, rec := kv, fin := reapply cmds kv la i.n }
+    some { cp := i.name, n := i.n, la, recKv := kv, fin := reapply cmds kv la i.n }
 
 def sameKvB (a b : AMap) : Bool := sortMap a == sortMap b
 
